@@ -536,6 +536,11 @@ class Dispatcher(actor.RallyActor):
     def receiveMsg_PoisonMessage(self, msg, sender):
         self.send(self.start_sender, actor.BenchmarkFailure(msg.details))
 
+    def receiveMsg_ChildActorExited(self, msg, sender):
+        # A node mechanic is gone, e.g. because its Rally daemon has been shut down after it has checked in. We don't get convention
+        # updates anymore at that point, so let the mechanic decide (based on its status) whether this is a failure.
+        self.send(self.start_sender, msg)
+
     def receiveUnrecognizedMessage(self, msg, sender):
         self.logger.info("mechanic.Dispatcher#receiveMessage unrecognized(msg = [%s] sender = [%s])", str(type(msg)), str(sender))
 
